@@ -9,7 +9,7 @@ from fractions import Fraction
 
 import numpy as np
 
-from hyverif.core import digest
+from hyverif.core import digest, same_result
 
 ID = "C20"
 SHARDS = {"quick": 8, "thorough": 16}
@@ -205,6 +205,26 @@ def run_stdnorm_case(ctx, case):
     ctx.presentations("standard_normal", lambda x_: su.standard_normal(x_, cst), [x],
                       (u, np.asarray(ranks)), case,
                       np.random.default_rng(digest(x) % 2 ** 32), n=1)
+    # the same ordering carried by 64-bit integers that doubles cannot tell apart
+    # (counters, identifiers, nanosecond stamps): distinct integers, distinct scores
+    if 2 <= len(x) <= 200:
+        rk = np.argsort(np.argsort(x, kind="mergesort"), kind="mergesort")
+        dense = np.searchsorted(np.unique(x), x)          # ties stay ties
+        for base_, dt_ in ((2 ** 60, np.int64), (2 ** 63 + 2 ** 40, np.uint64),
+                           (-2 ** 62, np.int64)):
+            xi = (np.array([base_] * len(x), dtype=object) + dense.astype(object)) \
+                .astype(dt_)
+            ctx.tag("stdnorm:integers-beyond-2^53")
+            ctx.api("standard_normal")
+            try:
+                ui, _ = su.standard_normal(xi, cst)
+                ui = np.asarray(ui, dtype=float)
+                ctx.check("stdnorm.big-integers", same_result(ui, u, 1e-12, 1e-12),
+                          "standard_normal|scores-differ-for-64-bit-integers", case,
+                          lambda: {"dtype": np.dtype(dt_).name, "first": ui[:5].tolist(),
+                                   "expected": u[:5].tolist()})
+            except Exception as e:
+                ctx.extra["stdnorm-big-integers-refused"] += 1
 
 
 # ------------------------------------------------------------- pareto front ----
@@ -426,6 +446,30 @@ def run_box_case(ctx, case):
             bad = cmp_stats(st[f"c{i}"], ref, mag)
             ctx.check("Boxplot.stats", not bad, "Boxplot|stats", case,
                       lambda: {"col": i, "bad": bad[:4]})
+        if len(cols) >= 2:
+            # a frame with a repeated column label (two series of the same name put side
+            # by side): one summary per *column*, in the order of the columns
+            lab = ["flow"] * 2 + [f"c{i}" for i in range(2, len(cols))]
+            dfd = pd.DataFrame(np.column_stack(cols), columns=lab)
+            ctx.tag("box:repeated-column-label")
+            ctx.api("Boxplot")
+            try:
+                with warnings.catch_warnings():
+                    warnings.simplefilter("ignore")
+                    std = boxplot.Boxplot(dfd, box_coverage=bc, whiskers_coverage=wc).stats
+                okd = std.shape[1] == len(cols) and list(std.columns) == lab
+                for i, c in enumerate(cols):
+                    if not okd:
+                        break
+                    ref, _ = box_ref(c, bc, wc)
+                    fin = c[np.isfinite(c)]
+                    mag = float(np.max(np.abs(fin))) if len(fin) else 1.0
+                    okd = not cmp_stats(std.iloc[:, i], ref, mag)
+                ctx.check("Boxplot.repeated-labels", bool(okd),
+                          "Boxplot|stats|repeated-column-label", case,
+                          lambda: {"columns_in": lab, "columns_out": list(std.columns)})
+            except Exception as e:
+                ctx.extra["Boxplot-repeated-labels-refused"] += 1
         if ctx.evaluations % 5 == 0:
             # drawing the plot (linear and log axis) is a read-only use of the table
             import matplotlib
